@@ -34,6 +34,7 @@ type c02Model struct {
 	copyMode     bool
 	donor        *tabular.ATable
 	copies       int
+	refused      int
 	looks        int
 }
 
@@ -198,6 +199,18 @@ func (m *c02Model) apply(o c02Op) {
 		m.rows = append(m.rows, r)
 		m.lastAttached = r
 	case c02AddOnAnyRow:
+		if o.k%5 == 4 {
+			// a cell offered to a SEPARATOR row (taken from AllRows): the add is refused (and recorded as an error, which
+			// is C11's business) - a refused building call leaves the shape of the table alone
+			for _, r := range m.rows {
+				if r.sep && r.handle != nil {
+					m.log = append(m.log, "  (separatorRow.Add(cell): refused)")
+					r.handle.Add(tabular.NewCell(m.id()))
+					m.refused++
+					return
+				}
+			}
+		}
 		var cand []*c02Row
 		for _, r := range m.rows {
 			if !r.sep && r.handle != nil {
@@ -429,7 +442,10 @@ func c02Run(c *Ctx, ops []c02Op, sample bool) { c02RunMode(c, ops, sample, false
 
 func c02RunMode(c *Ctx, ops []c02Op, sample, copyMode bool) {
 	m := &c02Model{t: tabular.New(), copyMode: copyMode}
-	defer func() { c.Rec.Count("cells_added_that_were_by-value_copies_of_placed_cells", int64(m.copies)) }()
+	defer func() {
+		c.Rec.Count("cells_added_that_were_by-value_copies_of_placed_cells", int64(m.copies))
+		c.Rec.Count("cells_offered_to_separator_rows(refused)", int64(m.refused))
+	}()
 	desc := map[string]interface{}{}
 	c.Case = desc
 	if k, msg := m.check(c); k != "" {
